@@ -25,11 +25,11 @@ def model_check(tier):
     cfg = re.sub(r"MaxDepth = \d+", f"MaxDepth = {depth}", cfg)
     path = tlcrun.fresh("lifecycle.cfg")
     open(path, "w").write(cfg)
-    res = tlcrun.run_tlc("FVLifecycle.tla", path, workers=16, timeout=3000, heap="8g")
+    res = tlcrun.run_tlc("FVLifecycleMC.tla", path, workers=16, timeout=3000, heap="8g")
     if not res["ok"]:
         raise tlcrun.MachineryError("FVLifecycle (C09 alphabet) failed:\n" + tlcrun.tlc_error_excerpt(res["out"]))
     # the unrestricted invariant: a counterexample must exist and must go through a shared BC object
-    shared = tlcrun.run_tlc("FVLifecycle.tla", "FVLifecycle_c09_shared.cfg", workers=4, timeout=1200, heap="4g")
+    shared = tlcrun.run_tlc("FVLifecycleMC.tla", "FVLifecycle_c09_shared.cfg", workers=4, timeout=1200, heap="4g")
     trace = re.findall(r'last = \[name \|-> "(\w+)", args \|-> <<([^>]*)>>\]', shared["out"])
     return res, shared, trace
 
@@ -42,9 +42,17 @@ def report_failures(rep, judge, prefixes):
         rep.nonconforming[k] = rep.nonconforming.get(k, 0) + n
 
 
+# repository tests whose public calls are recorded and validated (the first QUICK_TESTS in the quick tier); with the
+# recorder's slot recycling (Drop events) whole test runs are validated with pools of at most 40 objects
 REPO_TESTS = ["test_TrackedArray.py", "test_BC_utility_methods.py", "test_CellVariable_copy.py",
-              "test_CellVariable_methods.py", "test_benchmark_1d.py", "test_cylindrical1D_diffusion_steady.py"]
-MAX_EVENTS = 1500
+              "test_CellVariable_methods.py", "test_BC.py", "test_README_script.py", "test_benchmark_1d.py",
+              "test_cylindrical1D_diffusion_steady.py", "test_cylindrical1D_diffusion.py",
+              "test_cylindrical1D_diffusion_source_photothermal.py", "test_PyFVTool_basic_test.py",
+              "test_pdesolver_mason_weaver.py", "test_runs.py", "test_spherical1D_diffusion.py",
+              "test_spherical_coordinate_examples.py", "test_cylindrical2D_convection_Taylor.py",
+              "test_PyFVTool_introduction_demo.py"]
+QUICK_TESTS = 7
+MAX_EVENTS = 20000
 
 
 def traces(rep, tier, seed):
@@ -55,7 +63,7 @@ def traces(rep, tier, seed):
     nprog, length = (6, 40) if tier == "quick" else (60, 60)
     jobs.append(("random-programs", [scen, "random", str(seed), str(nprog), str(length)], None))
     jobs.append(("random-programs-sharing", [scen, "random", str(seed + 1), str(max(2, nprog // 3)), str(length), "share"], None))
-    for t in (REPO_TESTS if tier == "thorough" else REPO_TESTS[:4]):
+    for t in (REPO_TESTS if tier == "thorough" else REPO_TESTS[:QUICK_TESTS]):
         jobs.append(("repo:" + t, ["-m", "pytest", "-q", "-p", "no:cacheprovider", "-x", os.path.join(drive.REPO, "tests", t)],
                      drive.REPO))
     out = {"traces": 0, "events": 0, "states": 0, "per_trace": {}, "mismatches": {}, "dropped": {}}
